@@ -160,7 +160,7 @@ def jobs_for(prop, tier, seed):
         J += shard_jobs(prop, seed, ["churn", "--mode", "stress"], n - 4, s, "stress-asan", variant="asan",
                         tool_props={"*": "C16"})
         J += shard_jobs(prop, seed, ["churn", "--mode", "stress"], 4, s, "stress", base=30)
-        J.append(miri(prop, seed, "stress", ["churn", "--mode", "stress", "--runs", "1"], ms, mt, {"*": "C16"}, base=41))
+        J.append(miri(prop, seed, "stress", ["churn", "--mode", "stress", "--runs", "1", "--fl", "broadcast"], ms, mt, {"*": "C16"}, base=41))
     elif prop == "C17":
         J += shard_jobs(prop, seed, ["churn", "--mode", "teardown"], 4, s, "teardown")
         J += shard_jobs(prop, seed, ["churn", "--mode", "growth"], 5, s, "growth", base=20)
